@@ -96,6 +96,18 @@ long GzStream::tell() {
   return GG(gztell)((gzFile)f);
 }
 
+std::string GzStream::read_rest() {
+  std::string ret;
+  char buf[512];
+  for (;;) {
+    int n = GG(gzread)((gzFile)f, buf, sizeof(buf));
+    if (n <= 0)
+      break;
+    ret.append(buf, n);
+  }
+  return ret;
+}
+
 
 MaybeGzipped::MaybeGzipped(const std::string& path) : BasicInput(path) {}
 
